@@ -7,6 +7,10 @@ HOSTS = ["a.example.com", "b.example.com", "example.org", "a.b.example.com", "lo
 SEG_VALUES = ["a", "b", "ab", "abc", "abd", "v1", "v2", "x", "zz", "a.b", "a-b", "a~b", "A_1", ":a", "*b",
               "%5Bid%5D", "a%20b", "%41", "a%2Fb", "a%2fb", "%2F", "a%25b", "a+b", "a@b",
               "%C3%A9", "%E2%82%AC", "%ff", "%80", "Admin-1", "v1.0", "jkz", "Zz9"]
+# placeholders a former implementation of unescape used; octets a path may not contain (the request context
+# percent-encodes them, an encoded slash next to them has to stay what it is); raw UTF-8
+RAW_OCTET_VALUES = ["$$$escaped-slash$$$", "$$$escaped-lc-slash$$$", "a^b", "a|b", "{a}", "a%2Fb^", "%2f|", "\"a\"", "<a>",
+                    "`a", "a%2Fb{", "\u00e9", "caf\u00e9%2fb", "\u20ac"]
 # static segments covering every class of unreserved characters (letters of both cases incl. the hex letters, digits,
 # "-", ".", "_", "~"): re-encoding any of them must not change the rule that answers
 RICH_LITS = ["Admin-1", "v1.0", "a~b", "A_1", "jkz", "Zz9", "x-y.z_w~q", "0", "k.m", "fade", "CAFE", "b-e"]
@@ -91,15 +95,18 @@ def gen_rule(rng, rid, exprs, rich=False):
             "scheme": rng.choice(["", "", "", "http", "https"]), "methods": methods, "hosts": hosts, "routes": routes}
 
 
-def gen_target(rng, exprs):
+def gen_target(rng, exprs, raw=False):
+    """raw: also octets outside what a path may contain (only for harnesses and models of the request context that
+    follow extractURL there)"""
+    values = SEG_VALUES + (RAW_OCTET_VALUES if raw else [])
     e = rng.choice(exprs)
     segs = e.split("/")
     out = []
     for s in segs:
         if s.startswith(":"):
-            out.append(rng.choice(SEG_VALUES + [""]))
+            out.append(rng.choice(values + [""]))
         elif s.startswith("*"):
-            out.append("/".join(rng.choice(SEG_VALUES) for _ in range(rng.choice([0, 1, 1, 2, 3]))))
+            out.append("/".join(rng.choice(values) for _ in range(rng.choice([0, 1, 1, 2, 3]))))
         elif s.startswith("\\") and len(s) > 1 and s[1] in ":*\\":
             out.append(s[1:])
         else:
@@ -110,10 +117,10 @@ def gen_target(rng, exprs):
         p += "/"
     elif r < 0.2 and out:
         i = rng.randrange(len(out))
-        out[i] = rng.choice(SEG_VALUES)
+        out[i] = rng.choice(values)
         p = "/".join(out)
     elif r < 0.25:
-        p += "/" + rng.choice(SEG_VALUES)
+        p += "/" + rng.choice(values)
     if not p.startswith("/"):
         p = "/" + p
     p = p.replace("\\", "")
@@ -202,7 +209,7 @@ def gen_repo_case(rng, max_ops=12):
         return rules
 
     def find_op():
-        op = {"op": "find", "method": rng.choice(METHODS), "host": rng.choice(HOSTS), "target": gen_target(rng, exprs)}
+        op = {"op": "find", "method": rng.choice(METHODS), "host": rng.choice(HOSTS), "target": gen_target(rng, exprs, raw=True)}
         if rng.random() < 0.35:
             op["scheme"] = rng.choice(["https", "https", "http", "HTTPS", "ws"])
         return op
